@@ -65,6 +65,7 @@ type c13Ev struct {
 	Want    string   `json:"want,omitempty"` // requested fault (replay input; ignored by the model)
 	WantK   int      `json:"wantk,omitempty"`
 	D       int      `json:"d,omitempty"` // tick
+	NutsNo  []int    `json:"nutsno,omitempty"` // sweep: labels of the did:nuts DIDs for which IsCommitted answered false
 }
 
 // ---- fake network + fault injection ---------------------------------------------------------
@@ -114,6 +115,7 @@ type c13Inj struct {
 	order    []string
 	fired    bool
 	sweepErr string
+	nutsNo   []string
 }
 
 type c13Deco struct {
@@ -146,6 +148,9 @@ func (d *c13Deco) IsCommitted(ctx context.Context, e orm.DIDChangeLog) (bool, er
 	ok, err := d.MethodManager.IsCommitted(ctx, e)
 	if err != nil && d.inj.sweepErr == "" {
 		d.inj.sweepErr = c13ErrClass(err)
+	}
+	if err == nil && !ok && d.name == "nuts" {
+		d.inj.nutsNo = append(d.inj.nutsNo, e.DID().String())
 	}
 	return ok, err
 }
@@ -375,8 +380,15 @@ func (w *c13World) run(ev c13Ev) (c13Ev, string) {
 		}
 		return ev, w.observe("skew")
 	case "sweep":
-		w.inj.sweepErr = ""
+		w.inj.sweepErr, w.inj.nutsNo = "", nil
 		w.mgr.Rollback(w.ctx)
+		ev.NutsNo = nil
+		for _, id := range w.inj.nutsNo {
+			if l, ok := w.didLabel[id]; ok {
+				ev.NutsNo = append(ev.NutsNo, l)
+			}
+		}
+		sort.Ints(ev.NutsNo)
 		r := "ok"
 		if w.inj.sweepErr != "" {
 			r = w.inj.sweepErr
